@@ -13,6 +13,7 @@ static uint8_t ebuf[16], ebuf2[16], obuf[16], obuf2[16];
 static uint8_t *enc(uint8_t *b, unsigned long long v) { memset(b, 0, 16); for (size_t i = 0; i < L; i++) b[i] = (uint8_t)(v >> (8 * i)); return b; }
 static unsigned long long dec(const uint8_t *b) { unsigned long long v = 0; for (size_t i = 0; i < L; i++) v |= (unsigned long long)b[i] << (8 * i); return v; }
 static void scribble(void) { memset(ebuf, 0xEE, 16); memset(ebuf2, 0xEE, 16); }
+static void red(uint8_t *a, uint8_t *b, uint8_t *r) { unsigned long long x = dec(a), y = b ? dec(b) : 0; uint8_t t[16]; enc(t, x * 31 + y); memcpy(r, t, L); }
 static bool pred_even(const uint8_t *e) { return (dec(e) % 2) == 0; }
 static int cmp_sort(const void *a, const void *b) { unsigned long long x = dec(a), y = dec(b); return (x > y) ? 5 : (x < y) ? -3 : 0; }   /* legal comparators need not return -1/0/1 */
 static char vlog[4096]; static size_t vlen;
@@ -66,6 +67,7 @@ static void array_op(int h, int argc, char **a) {
     else if (!strcmp(op, "trim")) { s = cc_array_sized_trim_capacity(ar); printf("trim %s", vf_stat(s)); }
     else if (!strcmp(op, "size")) { printf("size OK %zu", cc_array_sized_size(ar)); }
     else if (!strcmp(op, "map")) { vlen = 0; vlog[0] = 0; cc_array_sized_map(ar, visit); printf("map OK [%s]", vlog); }
+    else if (!strcmp(op, "reduce")) { enc(obuf, 7); cc_array_sized_reduce(ar, red, obuf); printf("reduce OK %llu", dec(obuf)); }
     else if (!strcmp(op, "sort")) { cc_array_sized_sort(ar, cmp_sort); printf("sort OK"); }
     else if (!strcmp(op, "destroy")) { cc_array_sized_destroy(ar); H[h] = NULL; for (int k = 0; k < NH; k++) if (I[k].on && I[k].h == h) I[k].on = 0; printf("destroy OK"); }
     else printf("%s badop", op);
